@@ -40,6 +40,7 @@ type lease4 struct {
 	firstSeen     map[string]int64 // first delivery of any request of that mac
 	promise       map[string]int64 // latest promised lease end (sim ns) per mac
 	volatile      map[string]bool  // save failed (fault-on variant only)
+	faultedDG     map[int64]bool   // datagrams one of whose store calls was made to fail
 	stored        map[string]storedRow
 	noReply       []*DG
 	crashesLeft   int
@@ -75,6 +76,7 @@ func (s *lease4) Plan(w *World) {
 	s.firstSeen = map[string]int64{}
 	s.promise = map[string]int64{}
 	s.volatile = map[string]bool{}
+	s.faultedDG = map[int64]bool{}
 	s.lastClock = map[int64]int64{}
 	sizes := []int{2, 3, 4, 5, 8, 16, 63, 64, 65, 130}
 	if t.Draw(3) == 0 {
@@ -335,7 +337,9 @@ func (s *lease4) OnInvoke(w *World, dg *DG, inv *Invocation) {
 	}
 	s.applyFaultTags(w)
 	if inv.RespNil {
-		if at, ok := s.toldAt[mac]; ok && at < dg.DeliveredAt && !s.volatile[mac] {
+		// a request whose own store call was made to fail may be dropped (an operation may fail under an injected
+		// fault; it must not return wrong data)
+		if at, ok := s.toldAt[mac]; ok && at < dg.DeliveredAt && !s.volatile[mac] && !s.faultedDG[dg.ID] {
 			w.Violate("C02", "bound-client-not-served", "client %q holds %s but the range plugin gave its %s (dg%d) nothing", mac, s.told[mac], dg.Req4.MessageType(), dg.ID)
 			return
 		}
@@ -483,6 +487,9 @@ func (s *lease4) applyFaultTags(w *World) {
 			continue
 		}
 		mac := macKey(dg.Req4.ClientHWAddr)
+		if !ev.OK {
+			s.faultedDG[dg.ID] = true
+		}
 		switch {
 		case !ev.OK && !s.volatile[mac]:
 			s.volatile[mac] = true
@@ -505,8 +512,32 @@ func (s *lease4) checkDB(w *World, when string) {
 		return
 	}
 	s.stored = rows
+	// The rows are read with the harness's own idea of the table (text columns mac, ip, expiry). What the property
+	// is about is what a restart restores, so a binding the raw reading cannot find is looked up through the range
+	// plugin itself, started on a copy of the file: a different on-disk representation is not a lost binding.
+	var view func(mac string) (net.IP, bool)
+	viewTried := false
+	restored := func(mac string, ip net.IP) bool {
+		if !viewTried {
+			viewTried = true
+			view = s.pluginView(w)
+		}
+		if view == nil {
+			return false
+		}
+		got, ok := view(mac)
+		return ok && got.Equal(ip)
+	}
+	recognised := true
+	for _, r := range rows {
+		if strings.HasPrefix(canonMAC(r.raw), "?") {
+			recognised = false
+		}
+	}
 	for _, p := range problems {
-		w.Violate("C03", "db-duplicate", "%s: %s", when, p)
+		if recognised {
+			w.Violate("C03", "db-duplicate", "%s: %s", when, p)
+		}
 	}
 	for _, mac := range sortedKeys(s.told) {
 		ip := s.told[mac]
@@ -515,10 +546,20 @@ func (s *lease4) checkDB(w *World, when string) {
 		}
 		row, ok := rows[mac]
 		if !ok {
-			w.Violate("C03", "binding-lost", "%s: client %q was told %s but the database has no row for it (rows: %d)", when, mac, ip, len(rows))
+			if restored(mac, ip) {
+				w.Probe("range.row_found_through_plugin_only")
+				s.stored[mac] = storedRow{ip: ip}
+				continue
+			}
+			w.Violate("C03", "binding-lost", "%s: client %q was told %s but the database has no row for it (rows: %d) and a restart on a copy of the database does not restore it either", when, mac, ip, len(rows))
 			continue
 		}
 		if !row.ip.Equal(ip) {
+			if restored(mac, ip) {
+				w.Probe("range.row_found_through_plugin_only")
+				s.stored[mac] = storedRow{ip: ip}
+				continue
+			}
 			w.Violate("C03", "binding-changed", "%s: client %q was told %s but the database says %s", when, mac, ip, row.ip)
 		}
 		if p, ok := s.promise[mac]; ok {
@@ -594,6 +635,54 @@ func (s *lease4) snapshotRestart(w *World, why string) {
 				w.Probe("range.snapshot_binding_restored")
 			}
 		}()
+	}
+}
+
+// pluginView starts the range plugin on a copy of the lease database and returns a lookup "which address does a
+// restarted server give this client" (nil if the copy cannot be made or the plugin does not start; the restart
+// checks report that separately).
+func (s *lease4) pluginView(w *World) func(mac string) (net.IP, bool) {
+	if _, err := os.Stat(s.dbPath); err != nil {
+		return nil
+	}
+	snap := filepath.Join(w.Dir, fmt.Sprintf("view-%d-%d.sqlite3", w.Sim.Steps, s.dbReads))
+	if err := copyFile(s.dbPath, snap); err != nil {
+		return nil
+	}
+	if _, err := os.Stat(s.dbPath + "-journal"); err == nil {
+		copyFile(s.dbPath+"-journal", snap+"-journal")
+	}
+	p := plugins.RegisteredPlugins["range"]
+	var h handler.Handler4
+	var err error
+	func() {
+		defer func() {
+			if r := recover(); r != nil {
+				err = fmt.Errorf("panic: %v", r)
+			}
+		}()
+		h, err = p.Setup4(snap, ip4(s.start).String(), ip4(s.end).String(), s.lease.String())
+	}()
+	if err != nil || h == nil {
+		return nil
+	}
+	return func(mac string) (ip net.IP, ok bool) {
+		hw, good := parseTold(mac)
+		if !good {
+			return nil, false
+		}
+		req := w.build4(&Client4{MAC: hw}, dhcpv4.MessageTypeDiscover)
+		resp, _ := dhcpv4.NewReplyFromRequest(req)
+		defer func() {
+			if r := recover(); r != nil {
+				ip, ok = nil, false
+			}
+		}()
+		out, _ := h(req, resp)
+		if out == nil {
+			return nil, false
+		}
+		return out.YourIPAddr, true
 	}
 }
 
